@@ -303,6 +303,41 @@ def race_behaviours(rng, n, first_id):
              'steps': templates[i % len(templates)]} for i in range(n)]
 
 
+CHUNK_LINES = 200000
+
+
+def validate_chunked(trace, d, tag):
+    """TLC judges a trace in chunks of whole behaviours (TLC's Json module holds a whole file in memory: the thorough
+    tier's direct trace has millions of lines and was not readable in one piece after the round-5 extension).  Every
+    behaviour starts with an Open line, which resets the trace specification, so a cut in front of an Open line changes
+    nothing.  Line numbers of the failures are those of the whole trace."""
+    chunks, cur, n, start = [], [], 0, 1
+    with open(trace) as fh:
+        for line in fh:
+            if len(cur) >= CHUNK_LINES and '"a":"Open"' in line[:80].replace(' ', ''):
+                chunks.append((start, cur))
+                start, cur = n + 1, []
+            cur.append(line)
+            n += 1
+    if cur:
+        chunks.append((start, cur))
+    if len(chunks) <= 1:
+        return core.tlc_trace('Trace_Groups.tla', 'Trace_Groups.cfg', trace, 1500)
+    total = {'fails': [], 'lines': 0, 'validated': 0, 'wall': 0.0, 'out': '', 'rc': 0}
+    for i, (off, lines) in enumerate(chunks):
+        p = os.path.join(d, 'chunk-%s-%d.ndjson' % (tag, i))
+        with open(p, 'w') as fh:
+            fh.writelines(lines)
+        res = core.tlc_trace('Trace_Groups.tla', 'Trace_Groups.cfg', p, 1500)
+        os.remove(p)
+        total['fails'] += [(k, t, ln + off - 1, a, nm, tg) for k, t, ln, a, nm, tg in res['fails']]
+        total['lines'] += res['lines'] or 0
+        total['validated'] += res['validated'] or 0
+        total['wall'] += res['wall']
+        total['out'] = res['out']
+    return total
+
+
 def run_bindings(rep, sets, d):
     """two pipelines side by side: direct binding (go test, then TLC) | Server.apply binding, then the real one-node
     server (go test each, then TLC each); one single-worker TLC per trace"""
@@ -313,7 +348,7 @@ def run_bindings(rep, sets, d):
         out = {}
         traces = {b: execute_one(b, sets[b], d, subs) for b in bs}
         for b in bs:
-            out[b] = core.tlc_trace('Trace_Groups.tla', 'Trace_Groups.cfg', traces[b], 1500)
+            out[b] = validate_chunked(traces[b], d, b)
         return out
     lanes = [[b for b in sets if b == 'direct'], [b for b in sets if b != 'direct']]
     results = {}
